@@ -339,6 +339,7 @@ def shard(ctx):
         if with_procs:
             # the constructs inside SUB / FUNCTION bodies (with EXIT SUB / EXIT FUNCTION leaving them), called from expressions
             g = GenCalls(rng, max_depth=rng.choice([2, 3]), size=rng.choice([4, 7]), errors=0.05)
+            g.exit_prob = 0.15
             prog = g.program()
             src, _ = emit_with_procs(prog)
         else:
